@@ -9,7 +9,9 @@ plain again afterwards.  See DESIGN.md section 6 (C20).
 from __future__ import annotations
 
 import copy
+import contextlib
 import gc
+import io
 import logging
 
 import onnx_ir as ir
@@ -182,7 +184,18 @@ def gen_case(run_seed: int, tier: str, index: int = 0) -> dict:
                 depth -= 1
         if evs:
             plan[str(i)] = evs
-    return {"property": PROPERTY, "run_seed": run_seed, "ops": op_list, "plan": plan}
+    # how the journal is consumed: 0 nobody reads it, 1 a hook reads every public attribute of each new entry
+    # (while the object is alive), 2 hook + the entries are read and displayed after the blocks
+    consumer = r.choice([0, 1, 1, 2])
+    return {"property": PROPERTY, "run_seed": run_seed, "ops": op_list, "plan": plan, "consumer": consumer}
+
+
+def _read_entry(e) -> None:
+    """Read an entry the way a user's hook or filter does; keeps nothing."""
+    o = e.obj
+    r = e.ref() if e.ref is not None else None
+    _ = (e.timestamp, e.operation, e.class_, e.class_name, e.object_id, e.details, len(e.stack_trace or ()), o is r)
+    del o, r
 
 
 def _canon_result(w: World, r):
@@ -206,7 +219,7 @@ def run_plain(op_list: list) -> list:
     return out
 
 
-def run_journaled(op_list: list, plan: dict, stats: dict):
+def run_journaled(op_list: list, plan: dict, stats: dict, consumer: int = 0):
     """Returns (outcomes, violation, journals) — holds no reference to IR objects on return."""
 
     def inc(k, n=1):
@@ -229,6 +242,9 @@ def run_journaled(op_list: list, plan: dict, stats: dict):
                 if ev == "enter":
                     if len(stack) < 3:
                         jr = _j.Journal()
+                        if consumer:
+                            jr.add_hook(_read_entry)
+                            inc("journal_hooks")
                         jr.__enter__()
                         stack.append(jr)
                         journals.append(jr)
@@ -309,7 +325,21 @@ def run_case(case: dict) -> dict:
         res["error"] = f"classes are not pristine at the start of the run ({bad}): leaked from a previous run"
         return res
     plain = run_plain(op_list)
-    journaled, viol, journals = run_journaled(op_list, plan, stats)
+    consumer = case.get("consumer", 0)
+    journaled, viol, journals = run_journaled(op_list, plan, stats, consumer)
+    if consumer == 2 and viol is None:
+        sink = io.StringIO()
+        try:
+            with contextlib.redirect_stdout(sink):
+                for jr in journals:
+                    for e in jr.entries:
+                        _read_entry(e)
+                    jr.display()
+                    for e in jr.entries[:3]:
+                        e.display()
+            stats["journal_displayed"] = stats.get("journal_displayed", 0) + len(journals)
+        except Exception as e:  # noqa: BLE001
+            viol = {"clause": "journal-unreadable", "detail": f"reading/displaying the recorded entries raised {type(e).__name__}: {e}", "key": f"journal-unreadable|{type(e).__name__}"}
     if viol is None:
         for i, (a, b) in enumerate(zip(plain, journaled)):
             if a[0] != b[0]:
@@ -374,6 +404,10 @@ def shrink_candidates(case: dict, violation: dict):
         c = copy.deepcopy(case)
         del c["plan"][k]
         yield c
+    if case.get("consumer", 0) > 0:
+        c = copy.deepcopy(case)
+        c["consumer"] = case["consumer"] - 1
+        yield c
 
 
 def finding_key(case: dict, violation: dict) -> str:
@@ -382,6 +416,6 @@ def finding_key(case: dict, violation: dict) -> str:
 
 def check_reach(agg: dict, tier: str):
     st = agg["stats"]
-    need = ["journal_enter", "journal_exit_normal", "journal_exit_by_exception", "journal_depth_2", "journal_depth_3", "ops_inside_journal", "entries_recorded", "weakrefs_checked"]
+    need = ["journal_enter", "journal_exit_normal", "journal_exit_by_exception", "journal_depth_2", "journal_depth_3", "ops_inside_journal", "entries_recorded", "weakrefs_checked", "journal_hooks", "journal_displayed"]
     missing = [k for k in need if not st.get(k)]
     return missing if agg["runs"] > 200 else []
